@@ -144,6 +144,7 @@ func checkC20(w *World, r *Report) {
 		return ok && fa.X == ssa.Value(cacheG)
 	}
 	nWrites := 0
+	doneFns := map[*ssa.Function]bool{}
 	for _, fn := range w.pkgFuncs() {
 		var updates []*ssa.MapUpdate
 		instrsOf(fn, func(in ssa.Instruction) {
@@ -159,7 +160,7 @@ func checkC20(w *World, r *Report) {
 		})
 		for _, mu := range updates {
 			nWrites++
-			w.checkCacheUpdate(r, fn, mu, isCacheMap)
+			w.checkCacheUpdate(r, fn, mu, isCacheMap, doneFns)
 		}
 	}
 	r.floor("writes to the attribute cache map", nWrites, 3)
@@ -195,7 +196,7 @@ func keyParts(key ssa.Value) (typ ssa.Value, attr ssa.Value, alloc *ssa.Alloc) {
 	return typ, attr, al
 }
 
-func (w *World) checkCacheUpdate(r *Report, fn *ssa.Function, mu *ssa.MapUpdate, isCacheMap func(ssa.Value) bool) {
+func (w *World) checkCacheUpdate(r *Report, fn *ssa.Function, mu *ssa.MapUpdate, isCacheMap func(ssa.Value) bool, done map[*ssa.Function]bool) {
 	pos := w.posOf(mu.Pos())
 	kTyp, kAttr, kAlloc := keyParts(mu.Key)
 	vu, ok := mu.Value.(*ssa.UnOp)
@@ -267,6 +268,22 @@ func (w *World) checkCacheUpdate(r *Report, fn *ssa.Function, mu *ssa.MapUpdate,
 			}
 		}
 	}
+	// control dependence: the branch conditions that decide which lookup-field stores execute must
+	// depend on the key alone as well (an entry filled differently for a value and for a pointer
+	// of the same struct type makes the answer depend on who asked first)
+	for f, sts := range fieldStores {
+		if statFields[f] {
+			continue
+		}
+		for _, st := range sts {
+			for _, cond := range controllingCondsBelow(st, func(v ssa.Value) bool { return isCacheHitTest(v, isCacheMap, kAlloc) }) {
+				if why := impureSource(cond, kTyp, kAttr, map[ssa.Value]bool{}, 0); why != "" {
+					impure = fmt.Sprintf("whether field %s is set depends on %s", f, why)
+					r.bad("R20.3", ssaName(fn), "condition controlling the store of entry."+f, w.posOf(st.Pos()), "what is cached under a (type, name) key is decided by a condition that does not depend on the key alone: "+why+" — the cached answer depends on which object was looked up first")
+				}
+			}
+		}
+	}
 	switch {
 	case wholeFromLookup > 0 && nLookupStores == 0 && lookupKeyOK:
 		r.ok("R20.4", ssaName(fn), "write to the cache map (statistics update)", pos, "entry read under the same key, only statistics fields assigned, stored back under the same key", true)
@@ -280,6 +297,11 @@ func (w *World) checkCacheUpdate(r *Report, fn *ssa.Function, mu *ssa.MapUpdate,
 		r.bad("R20.4", ssaName(fn), "write to the cache map", pos, "the written entry is neither a statistics update of the entry read under the same key nor an entry computed from the key")
 	}
 
+	// R20.5 / R20.6 concern the function as a whole: once per function
+	if done[fn] {
+		return
+	}
+	done[fn] = true
 	// R20.5: key.typ = V.Type() and field access through the same V
 	var keyVal ssa.Value
 	if c, ok := kTyp.(*ssa.Call); ok && isFunc(calleeFunc(c), "reflect", "Value", "Type") {
@@ -309,6 +331,89 @@ func (w *World) checkCacheUpdate(r *Report, fn *ssa.Function, mu *ssa.MapUpdate,
 			if !sameValue(c.Call.Args[0], keyVal) {
 				badAcc = w.posOf(in.Pos())
 			}
+		}
+	})
+	// R20.6: a cached method index is applied to the method set it was computed for
+	isPtrMethodFlag := func(v ssa.Value) bool {
+		switch x := v.(type) {
+		case *ssa.UnOp:
+			if fa, ok := x.X.(*ssa.FieldAddr); ok {
+				_, f := fieldOfAddr(fa)
+				return f == "ptrMethod"
+			}
+		case *ssa.Field:
+			if st, ok := x.X.Type().Underlying().(*types.Struct); ok && x.Field < st.NumFields() {
+				return st.Field(x.Field).Name() == "ptrMethod"
+			}
+		}
+		return false
+	}
+	flagFlow := func(want bool) *boolFlow {
+		fl := &boolFlow{fn: fn, entry: false}
+		fl.edge = func(b *ssa.BasicBlock, i int) bool {
+			v, trueIdx, ok := ifCond(b)
+			if !ok || !isPtrMethodFlag(v) {
+				return false
+			}
+			return (i == trueIdx) == want
+		}
+		fl.solve()
+		return fl
+	}
+	var onPtr, onVal *boolFlow
+	instrsOf(fn, func(in ssa.Instruction) {
+		c, ok := in.(*ssa.Call)
+		if !ok {
+			return
+		}
+		f := calleeFunc(c)
+		if f == nil || f.FullName() != "(reflect.Value).Method" {
+			return
+		}
+		// only calls that use the cached index
+		idx := c.Call.Args[1]
+		usesCached := false
+		switch x := idx.(type) {
+		case *ssa.UnOp:
+			if fa, ok := x.X.(*ssa.FieldAddr); ok {
+				_, fn2 := fieldOfAddr(fa)
+				usesCached = fn2 == "methodIndex"
+			}
+		case *ssa.Field:
+			if st, ok := x.X.Type().Underlying().(*types.Struct); ok && x.Field < st.NumFields() {
+				usesCached = st.Field(x.Field).Name() == "methodIndex"
+			}
+		}
+		if !usesCached {
+			return
+		}
+		if onPtr == nil {
+			onPtr, onVal = flagFlow(true), flagFlow(false)
+		}
+		recv := unspill(c.Call.Args[0])
+		construct := "cached method index applied to the method set it was computed for"
+		pos := w.posOf(in.Pos())
+		isPtrRecv := false
+		if rc, ok := recv.(*ssa.Call); ok {
+			if g := rc.Call.StaticCallee(); g != nil && (g.String() == "reflect.New" || g.String() == "reflect.ValueOf") {
+				isPtrRecv = true
+			}
+		}
+		switch {
+		case sameReflect(recv, keyVal):
+			if onVal.at(in) {
+				r.ok("R20.6", ssaName(fn), construct, pos, "value receiver, under ptrMethod == false", true)
+			} else {
+				r.bad("R20.6", ssaName(fn), construct, pos, "a method index that may have been computed on the pointer type's method set is applied to the struct value")
+			}
+		case isPtrRecv:
+			if onPtr.at(in) {
+				r.ok("R20.6", ssaName(fn), construct, pos, "pointer receiver, under ptrMethod == true", true)
+			} else {
+				r.bad("R20.6", ssaName(fn), construct, pos, "a method index that may have been computed on the struct type's method set is applied to a pointer receiver (the pointer's method set also contains the pointer-receiver methods, so the same index names another method)")
+			}
+		default:
+			r.bad("R20.6", ssaName(fn), construct, pos, "the receiver of Method(cached index) cannot be tied to the kind of method set the index was computed on (value vs pointer): with mixed receiver kinds the wrong member is called")
 		}
 	})
 	if nAcc > 0 && badAcc == "" {
@@ -413,4 +518,125 @@ func impureSource(v ssa.Value, kTyp, kAttr ssa.Value, seen map[ssa.Value]bool, d
 		return "another cache/map entry"
 	}
 	return fmt.Sprintf("a value of kind %T", v)
+}
+
+
+// controllingCondsBelow: the controlling conditions that lie below the innermost dominating
+// cache-hit test — everything above it decides whether the cache is consulted at all and is
+// implied by the key (nil object, map fast path, "is a struct"), everything below it decides
+// what is stored under the key.
+func controllingCondsBelow(in ssa.Instruction, isHitTest func(ssa.Value) bool) []ssa.Value {
+	var out []ssa.Value
+	b := in.Block()
+	for d := b.Idom(); d != nil; d = d.Idom() {
+		v, _, ok := ifCond(d)
+		if !ok {
+			continue
+		}
+		if isHitTest(v) {
+			return out
+		}
+		// d controls b iff b cannot be reached from every successor of d
+		through := 0
+		for _, s := range d.Succs {
+			if blockReaches(s, b) {
+				through++
+			}
+		}
+		if through < len(d.Succs) {
+			out = append(out, v)
+		}
+	}
+	return nil // no hit test above the store: nothing to say
+}
+
+// controllingConds: the conditions of the If instructions on which the instruction is control
+// dependent (a dominator whose two successors are not both on every path to the instruction).
+func controllingConds(in ssa.Instruction) []ssa.Value {
+	var out []ssa.Value
+	b := in.Block()
+	for d := b.Idom(); d != nil; d = d.Idom() {
+		v, _, ok := ifCond(d)
+		if !ok {
+			continue
+		}
+		// the instruction's block is reached through exactly one successor of d
+		through := 0
+		for _, s := range d.Succs {
+			if s == b || s.Dominates(b) {
+				through++
+			}
+		}
+		if through == 1 {
+			out = append(out, v)
+		}
+	}
+	return out
+}
+
+// isCacheHitTest: the comma-ok result of a lookup in the cache map under this key.
+func isCacheHitTest(v ssa.Value, isCacheMap func(ssa.Value) bool, kAlloc *ssa.Alloc) bool {
+	seen := map[ssa.Value]bool{}
+	var walk func(v ssa.Value) bool
+	walk = func(v ssa.Value) bool {
+		if seen[v] {
+			return true
+		}
+		seen[v] = true
+		switch x := v.(type) {
+		case *ssa.Extract:
+			if lk, ok := x.Tuple.(*ssa.Lookup); ok && x.Index == 1 && isCacheMap(lk.X) {
+				if ku, ok := lk.Index.(*ssa.UnOp); ok && ku.X == ssa.Value(kAlloc) {
+					return true
+				}
+			}
+		case *ssa.Phi:
+			for _, e := range x.Edges {
+				if !walk(e) {
+					return false
+				}
+			}
+			return true
+		case *ssa.UnOp:
+			if al, ok := x.X.(*ssa.Alloc); ok && al.Referrers() != nil {
+				n := 0
+				for _, ref := range *al.Referrers() {
+					if st, ok := ref.(*ssa.Store); ok && st.Addr == al {
+						n++
+						if !walk(st.Val) {
+							return false
+						}
+					}
+				}
+				return n > 0
+			}
+		case *ssa.BinOp:
+			// attributeCache.currSize >= maxSize: capacity management
+			return false
+		}
+		return false
+	}
+	return walk(v)
+}
+
+
+func blockReaches(from, to *ssa.BasicBlock) bool {
+	seen := map[*ssa.BasicBlock]bool{}
+	var walk func(b *ssa.BasicBlock) bool
+	walk = func(b *ssa.BasicBlock) bool {
+		if b == to {
+			return true
+		}
+		if seen[b] {
+			return false
+		}
+		seen[b] = true
+		for _, s := range b.Succs {
+			if walk(s) {
+				return true
+			}
+		}
+		return false
+	}
+	return walk(from)
 }
